@@ -324,7 +324,7 @@ structure ElemEnv (V B : Type) where
   parseScalar : List Char → Option (V × List Char)
   /-- identifier of the state type registered for the value's type -/
   typeId : V → Str
-  /-- its `default_extension()` -/
+  /-- the extension `encode_element` uses: the type's `default_extension()`, `djson` for a nested dictionary -/
   ext : V → Str
   /-- `t.as_bytes(v, ext)[0]` -/
   asBytes : V → B
